@@ -48,6 +48,11 @@ LEAFTYPES = [
     ("union", [S("?n 3"), S("3 ?n")]),
     ("union", [S("?n 3"), S("_ 4")]),
     ("union", [S("?n ?k 9"), S("?k ?n _")]),
+    # a structure-less PyTree alternative that does NOT match the (array) leaf, then a '?' alternative
+    ("union", [("pytree", ("int",)), S("?n")]),
+    ("union", [("pytree", ("str",)), S("*?n")]),
+    # the leaf check itself raises AnnotationError after '?n' was bound (state must not outlive the check)
+    S("?n zz+1"),
     # a '?' axis used after a structure-less inner PyTree within the same leaf
     ("tuple", [("pytree", S("?n")), S("?n 2")]),
 ]
@@ -93,9 +98,12 @@ def leaf_value(rng, L, sizes):
     if k == "tuple":
         return tuple(leaf_value(rng, x, sizes) for x in L[1])
     if k == "union":
-        return leaf_value(rng, rng.choice(L[1]), sizes)
+        alts = [a for a in L[1] if a[0] != "pytree"] or L[1]
+        return leaf_value(rng, rng.choice(alts), sizes)
     if k == "int":
         return rng.choice((1, 5))
+    if k == "str":
+        return "s"
     if k == "pytree":
         n = rng.choice((1, 2, 2, 3))
         kids = [leaf_value(rng, L[1], sizes) for _ in range(n)]
